@@ -98,7 +98,7 @@ func Main(spec Spec) {
 			p.Bounds = spec.Bounds(*tier)
 		}
 		for i, u := range us {
-			if i < 8 {
+			if i < 8 || os.Getenv("VERIF_ALL_UNIT_NAMES") != "" {
 				p.UnitNames = append(p.UnitNames, u.Name)
 			}
 		}
